@@ -52,6 +52,27 @@ var c10Hists = []c10Hist{
 	{"variants", []c10Step{{0, "GET", U, []string{"X-A", "1"}, "vary200"}, {1, "GET", U, []string{"X-A", "2"}, "vary200"}, {1, "GET", U, []string{"X-A", "1"}, "vary200"}}},
 	{"variants-nil-header", []c10Step{{0, "GET", U, []string{"X-A", "1"}, "vary200"}, {1, "GET", U, []string{"X-A", "\x00nil"}, "vary200"}, {1, "GET", U, []string{"X-A", "1"}, "vary200"}}},
 	{"stale-if-error", []c10Step{{0, "GET", U, nil, "200:max-age=5, stale-if-error=100"}, {10, "GET", U, nil, "503"}}},
+	// origins with odd, malformed or missing header fields (c10Odd): stored, reused or validated, and reused again
+	{"odd-headers-0", c10OddSteps("0")}, {"odd-headers-1", c10OddSteps("1")}, {"odd-headers-2", c10OddSteps("2")}, {"odd-headers-3", c10OddSteps("3")},
+	{"odd-headers-4", c10OddSteps("4")}, {"odd-headers-5", c10OddSteps("5")}, {"odd-headers-6", c10OddSteps("6")}, {"odd-headers-7", c10OddSteps("7")},
+	{"unsafe-error-status", []c10Step{{0, "GET", U, nil, "200:max-age=100"}, {1, "POST", U, nil, "503"}, {1, "DELETE", U, nil, "404"}, {1, "GET", U, nil, "200:max-age=100"}}},
+}
+
+func c10OddSteps(k string) []c10Step {
+	return []c10Step{{0, "GET", U, []string{"X-A", "1"}, "odd:" + k}, {1, "GET", U, []string{"X-A", "1"}, "odd:" + k}, {10, "GET", U, []string{"X-A", "2"}, "odd:" + k},
+		{1, "GET", U, []string{"X-A", "1"}, "odd:" + k}}
+}
+
+// c10Odd: header sections that are unusual, malformed or incomplete; the transport may treat them as it likes, but it serves the client.
+var c10Odd = map[string][][2]string{
+	"0": H("Cache-Control", "max-age=5", "Vary", "*, X-A", "ETag", `"v1"`),
+	"1": H("Cache-Control", ", ,max-age=5,,", "Vary", "X-A,, ,X-B,", "ETag", `"v1"`),
+	"2": H("Cache-Control", "max-age=5", "Connection", ", ,close, X-Odd,", "X-Odd", "o", "ETag", `"v1"`),
+	"3": H("Expires", "0", "Age", "-1", "Last-Modified", "garbage", "Date", "also garbage"),
+	"4": H("Cache-Control", `max-age="5`, "ETag", "v1", "Vary", "X-A"),
+	"5": H("Vary", "X-A", "Vary", "", "Vary", "x-a", "Cache-Control", "", "Cache-Control", "max-age=5", "ETag", `W/""`),
+	"6": H("Cache-Control", "max-age=5, stale-while-revalidate=100", "Set-Cookie", "sid=1", "WWW-Authenticate", `Basic realm="r"`, "Authentication-Info", "x=1", "Last-Modified", "Sat, 01 Jan 2000 00:00:00 GMT"),
+	"7": H("Cache-Control", `no-cache="`, "Cache-Control", `private=",", max-age=5, stale-if-error`, "Vary", "X-A, *, X-A"),
 }
 
 // hostile stored values: strict ones cannot be decoded by anything, lenient ones may still decode.
@@ -251,6 +272,13 @@ func c10Run(x *mc.X, hist c10Hist, logger string, replay []int, record *[]int) (
 				}
 			case "503":
 				spec = RS{Status: 503}
+			case "404":
+				spec = RS{Status: 404}
+			case "odd":
+				spec = RS{Status: 200, H: c10Odd[ccv], NoDate: ccv == "3"}
+				if cond {
+					spec = RS{Status: 304, NoTok: true, H: c10Odd[ccv], NoDate: ccv == "3"}
+				}
 			case "error":
 				return nil, errOrigin
 			case "slow":
